@@ -36,6 +36,7 @@ structure Core where
   toFree : Bool := false    -- NC_REQ_TO_FREE
   abufIndex : Int := -1
   status : Option Nat := none
+  maxRec : Int := -1        -- lead->max_rec (-1 for fixed-size variables)
   tag : Nat := 0
 deriving Repr, DecidableEq, Inhabited
 
@@ -45,9 +46,17 @@ structure Lead where
   nonleadNum : Nat
 deriving Repr, DecidableEq, Inhabited
 
+/-- the payload of one NC_req: `nelems` and `xbuf` (as byte distance to the lead request's xbuf);
+    start/count/stride are abstracted to `tag` -/
+structure Sub where
+  tag : Nat := 0
+  nelems : Int := 0
+  xoff : Int := 0
+deriving Repr, DecidableEq, Inhabited
+
 structure NonLead where
   leadOff : Nat
-  tag : Nat
+  s : Sub
 deriving Repr, DecidableEq, Inhabited
 
 structure Q where
@@ -61,7 +70,30 @@ deriving Repr, DecidableEq, Inhabited
 structure NC where
   put : Q := {}
   get : Q := {}
+  numrecs : Int := 0          -- ncp->numrecs (in memory)
 deriving Repr, DecidableEq, Inhabited
+
+/-! ### splitting a record-variable request into one NC_req per record -/
+
+/-- `ncmpio_add_record_requests(lead_list, reqs, num_recs, stride)`: reqs[0] is already filled in;
+    reqs[i].nelems = reqs[0].nelems, reqs[i].xbuf = reqs[0].xbuf + i * reqs[0].nelems * xsz -/
+def addRecordRequests (r0 : Sub) (xsz : Int) (numRecs : Nat) : List Sub :=
+  (List.range numRecs).map (fun (i : Nat) => { r0 with xoff := r0.xoff + (i : Int) * (r0.nelems * xsz) })
+
+/-- ncmpio_igetput_varm: `req->nelems /= count[0];` then add_record_requests -/
+def splitVarm (tag : Nat) (nelems xsz : Int) (count0 : Nat) : List Sub :=
+  if count0 > 1 then addRecordRequests { tag := tag, nelems := nelems / (count0 : Int), xoff := 0 } xsz count0
+  else [{ tag := tag, nelems := nelems, xoff := 0 }]
+
+/-- igetput_varn, sub-request with `nelems` elements whose data starts `xoff` bytes into xbuf:
+    `req->nelems = req_nelems[i]` and then add_record_requests — WITHOUT the division -/
+def splitVarn (tag : Nat) (nelems xoff xsz : Int) (count0 : Nat) : List Sub :=
+  if count0 > 1 then addRecordRequests { tag := tag, nelems := nelems, xoff := xoff } xsz count0
+  else [{ tag := tag, nelems := nelems, xoff := xoff }]
+
+/-- what a correct split looks like: `k` pieces of `nelems / k` elements tiling the buffer range -/
+def exactSplit (tag : Nat) (nelems xoff xsz : Int) (k : Nat) : List Sub :=
+  (List.range k).map (fun (i : Nat) => { tag := tag, nelems := nelems / (k : Int), xoff := xoff + (i : Int) * (nelems / (k : Int) * xsz) })
 
 /-! ### posting -/
 
@@ -76,18 +108,18 @@ def insPos (lead : List Lead) (reqOff : Int) : Nat :=
     `sorted` = true where the C code does the sorted insertion (every put, and iget_varn), false
     where it appends (iget_var* : `SORT_LEAD_LIST_BASED_ON_VARID` is not defined). -/
 def Q.post (q : Q) (first : Int) (sorted : Bool) (varBegin reqOff : Int) (abuf : Int) (tag : Nat)
-    (subs : List Nat) : Q × Int :=
+    (subs : List Sub) (maxRec : Int := -1) : Q × Int :=
   let newN := subs.length
   let leadOff := if sorted then insPos q.lead reqOff else q.numLead
   let pos := if leadOff < q.numLead then
                (match q.lead[leadOff]? with | some l => l.nonleadOff | none => q.numReqs)
              else q.numReqs
   let id := if q.numLead = 0 then first else q.maxId + 2
-  let newLead : Lead := { c := { id := id, varBegin := varBegin, abufIndex := abuf, tag := tag },
+  let newLead : Lead := { c := { id := id, varBegin := varBegin, abufIndex := abuf, maxRec := maxRec, tag := tag },
                           nonleadOff := pos, nonleadNum := newN }
   let lead' := q.lead.take leadOff ++ [newLead] ++
                (q.lead.drop leadOff).map (fun l => { l with nonleadOff := l.nonleadOff + newN })
-  let nl' := q.nonlead.take pos ++ subs.map (fun t => (⟨leadOff, t⟩ : NonLead)) ++
+  let nl' := q.nonlead.take pos ++ subs.map (fun s => (⟨leadOff, s⟩ : NonLead)) ++
              (q.nonlead.drop pos).map (fun r => { r with leadOff := r.leadOff + 1 })
   ({ lead := lead', nonlead := nl', numLead := q.numLead + 1, numReqs := q.numReqs + newN, maxId := id }, id)
 
@@ -235,7 +267,7 @@ def extract (nc : NC) (numReqs : Int) (ids : List Int) (st : Option (List Int)) 
   else if numReqs = ((nc.put.numLead + nc.get.numLead : Nat) : Int) ∧ st.isNone then
     -- "this is the same as NC_REQ_ALL"
     { base with ids := nullIds ids,
-                nc := { put := nc.put.takeAll, get := nc.get.takeAll },
+                nc := { nc with put := nc.put.takeAll, get := nc.get.takeAll },
                 numWLead := nc.put.numLead, numW := nc.put.numReqs, putList := nc.put.nonlead,
                 numRLead := nc.get.numLead, numR := nc.get.numReqs, getList := nc.get.nonlead }
   else
@@ -244,7 +276,7 @@ def extract (nc : NC) (numReqs : Int) (ids : List Int) (st : Option (List Int)) 
     else
       let c := copyLoop e.nc ids
       { e with ids := c.1, putList := c.2.1, getList := c.2.2,
-               nc := { put := e.nc.put.compact e.numW, get := e.nc.get.compact e.numR } }
+               nc := { e.nc with put := e.nc.put.compact e.numW, get := e.nc.get.compact e.numR } }
 
 /-! ### req_commit after the I/O -/
 
@@ -272,6 +304,13 @@ def Q.cleanup (q : Q) (numXLead : Nat) : Q × List Lead :=
   let j := r.1.length
   ({ q with lead := r.1, nonlead := if j = 0 then [] else r.2.1, numLead := j }, r.2.2)
 
+/-- `newnumrecs` of req_commit: `for (i=0; i<num_w_lead_reqs; i++)` over put_lead_list[i] — the bound
+    is the number of EXTRACTED lead requests, the index runs over the queue from its start -/
+def newNumrecs (numrecs : Int) (numWLead : Nat) (lead : List Lead) : Int :=
+  (lead.take numWLead).foldl (fun acc l =>
+    if l.c.maxRec < 0 ∨ ¬ l.c.toFree then acc          -- !IS_RECVAR (max_rec = -1) or not NC_REQ_TO_FREE
+    else if acc < l.c.maxRec then l.c.maxRec else acc) numrecs
+
 /-- result of one ncmpi_wait / ncmpi_wait_all on one process -/
 structure WaitRes where
   nc : NC
@@ -290,9 +329,12 @@ def wait (nc : NC) (numReqs : Int) (ids : List Int) (st : Option (List Int)) : W
   let e := extract nc numReqs ids st
   if e.err ≠ NC_NOERR then { nc := e.nc, ids := e.ids, st := e.st, err := e.err }
   else
+    let nn := newNumrecs nc.numrecs e.numWLead e.nc.put.lead
+    -- wait_getput(NC_REQ_WR) runs when this process has write requests and raises ncp->numrecs
+    let numrecs' := if e.numW > 0 ∧ nc.numrecs < nn then nn else nc.numrecs
     let p := e.nc.put.cleanup e.numWLead
     let g := e.nc.get.cleanup e.numRLead
-    { nc := { put := p.1, get := g.1 }, ids := e.ids, st := e.st, err := NC_NOERR,
+    { nc := { put := p.1, get := g.1, numrecs := numrecs' }, ids := e.ids, st := e.st, err := NC_NOERR,
       ioPut := e.putList, ioGet := e.getList, donePut := p.2, doneGet := g.2 }
 
 /-! ### ncmpio_cancel -/
@@ -358,7 +400,7 @@ def cancel (nc : NC) (numReq : Int) (ids : List Int) (st : Option (List Int)) : 
     if numReq < 0 then { nc := nc2, ids := ids, st := st, err := NC_NOERR, cancelled := c1 ++ c2 }
     else
       let r := cancelLoop 0 ids { nc := nc2, ids := [], st := st, err := NC_NOERR }
-      { r with nc := { put := r.nc.put.freeIfEmpty, get := r.nc.get.freeIfEmpty } }
+      { r with nc := { r.nc with put := r.nc.put.freeIfEmpty, get := r.nc.get.freeIfEmpty } }
 
 /-- ncmpi_inq_nreqs -/
 def nreqs (nc : NC) : Nat := nc.get.numLead + nc.put.numLead
@@ -367,10 +409,10 @@ def nreqs (nc : NC) : Nat := nc.get.numLead + nc.put.numLead
 
 structure Entry where
   c : Core
-  subs : List Nat           -- tags of its non-lead requests, in queue order
+  subs : List Sub           -- its non-lead requests, in queue order
 deriving Repr, DecidableEq, Inhabited
 
 def Q.view (q : Q) : List Entry :=
-  q.lead.map (fun l => ⟨l.c, ((q.nonlead.drop l.nonleadOff).take l.nonleadNum).map (fun r => r.tag)⟩)
+  q.lead.map (fun l => ⟨l.c, ((q.nonlead.drop l.nonleadOff).take l.nonleadNum).map (fun r => r.s)⟩)
 
 end PnVerif.ReqQueue
